@@ -13,7 +13,7 @@ RULE = ('one case = one real audit of a scripted peer whose KEXINIT (or SSH-1 pu
         'verbose and JSON renderings; SSH-1 cipher/authentication masks; probes answered or refused.  Oracle: per category the reported name sequence equals the advertised non-empty '
         'names (UTF-8 decoded with replacement), banner and compression equal what was sent.  A case is non-trivial when the audit completed and at least one category list was compared; '
         'distinct = distinct (KEXINIT, role, rendering) specifications')
-REQUIRED = {'client_text_vs_json_direction_checks': 2, 'compression_lists_without_none': 10, 'audits_completed': 50, 'names_compared': 500, 'client_role': 5, 'json_runs': 10, 'ssh1_runs': 5, 'special_names': 20}
+REQUIRED = {'ssh1_padding_8': 2, 'ssh1_padding_1': 2, 'client_text_vs_json_direction_checks': 2, 'compression_lists_without_none': 10, 'audits_completed': 50, 'names_compared': 500, 'client_role': 5, 'json_runs': 10, 'ssh1_runs': 5, 'special_names': 20}
 ASSUMPTIONS = ['verbose rendering repeats the name on every note line, so consecutive identical names are compared after merging (multiplicity is checked exactly in plain, batch and JSON renderings)',
                'client role with asymmetric direction lists: the report must equal one of the two directions (the statement does not say which)',
                'names containing space, comma or control characters are outside the quantifier (RFC 4251 forbids them)']
@@ -54,7 +54,8 @@ def cases(tier, seed):
     if tier == 'quick':
         masks = rng.sample(masks, 36) + [(0x48, 0x0c), (0x7f, 0x7e), (1, 2), (0, 0x0c), (0x48, 0)] + [(m, m) for m in (0x48, 0x0c, 0x7e, 2, 0x40, 0x24)]   # equal masks: two different tables are indexed by the same number
     for i, (cm, am) in enumerate(masks):
-        cs.append({'kind': 'ssh1', 'cmask': cm, 'amask': am, 'render': ['plain', 'json'][i % 2]})
+        # host keys of eight consecutive byte lengths: the packet length takes every residue modulo 8, i.e. every padding length 1..8
+        cs.append({'kind': 'ssh1', 'cmask': cm, 'amask': am, 'render': ['plain', 'json'][i % 2], 'host_bits': 1024 + 8 * ((i // 2) % 8), 'server_bits': [768, 776, 1024][i % 3]})
     return cs
 
 
@@ -305,9 +306,11 @@ def run_cover(c):
 
 
 def run_ssh1(c):
-    script = {'banner': 'SSH-1.5-OpenSSH_1.2.3', 'proto': 1, 'ssh1': {'cmask': c['cmask'], 'amask': c['amask']}}
+    script = {'banner': 'SSH-1.5-OpenSSH_1.2.3', 'proto': 1, 'ssh1': {'cmask': c['cmask'], 'amask': c['amask'], 'host_bits': c.get('host_bits', 2048), 'server_bits': c.get('server_bits', 768)}}
     r, p = audit.audit_server(script, RENDER[c['render']])
     viol, counters = [], {'ssh1_runs': 1}
+    plen = len(wire.ssh1_pkm(c['cmask'], c['amask'], c.get('host_bits', 2048), c.get('server_bits', 768))) + 5
+    counters['ssh1_padding_%d' % (8 - plen % 8)] = 1
     ciphers, auths = wire.ssh1_names(c['cmask'], c['amask'])
     if r.status not in (0, 2, 3):
         why = 'empty-mask' if (not ciphers or not auths) else 'other'
